@@ -14,10 +14,10 @@ mod session;
 
 pub(crate) use listener::Listener;
 pub(crate) use listener::ListenerMessage;
-pub(crate) use session::Session;
-pub(crate) use session::SessionMessage;
 #[cfg(slawlor_ractor_verif)]
 pub use session::verif as session_verif;
+pub(crate) use session::Session;
+pub(crate) use session::SessionMessage;
 
 /// A network port
 pub(crate) type NetworkPort = u16;
